@@ -90,7 +90,11 @@ class Gen:
       # the model sees 'the algorithm failed'; HOW it fails varies on the real side: an exception, an exception whose
       # text cannot be encoded, an answer that cannot be converted
       y = r.random()
-      return {'kind': 'other'} if y < 0.6 else {'kind': 'other', 'how': 'surrogate-message' if y < 0.8 else 'malformed-decision'}
+      if y < 0.5:
+        return {'kind': 'other'}
+      if y < 0.7:
+        return {'kind': 'other', 'how': 'long-message:%d' % r.randrange(0, 64)}
+      return {'kind': 'other', 'how': 'surrogate-message' if y < 0.85 else 'malformed-decision'}
     n = max(0, count + r.choice([-2, -1, 0, 0, 0, 0, 1, 2, 3]))
     sugg = [{'params': self.fresh(), 'md': [self.kv()] if r.random() < 0.3 else []} for _ in range(n)]
     if len(sugg) >= 2 and r.random() < 0.25:
